@@ -7,7 +7,7 @@ case = [op, fa, a, fb, b]
        5 f64 value (a/b = bit pattern) | 6 float literal in the text (bit pattern, finite)
 impl/model output: [0,z] integer | [4,bits] float | [1,code] error | [2] panic | [5,lt,eq,gt] | [9] n/a
 """
-import os, sys, collections, struct, math
+import os, sys, re, collections, struct, math
 from concurrent.futures import ThreadPoolExecutor
 from fractions import Fraction
 sys.path.insert(0, os.path.dirname(os.path.dirname(os.path.abspath(__file__))))
@@ -315,25 +315,88 @@ def ieee_expect(c):
 
 # ---------------------------------------------------------------------------------------
 def magnitude_bucket(z):
+    s = "-" if z < 0 else "+"
     z = abs(z)
-    for name, lim in (("<2^31", 2**31), ("<2^63", P63), ("<2^64", P64), ("<2^127", P127)):
-        if z < lim: return name
-    return ">=2^127"
+    if z == 0: return "0"
+    if z <= 2: return s + "1..2"
+    for name, lim in (("<2^31", 2**31), ("<2^53", 2**53), ("<2^63", P63), ("<2^64", P64), ("<2^127", P127)):
+        if z < lim: return s + name
+    if z == P127: return s + "=2^127"
+    return s + ">2^127"
+
+
+def int_outcome_class(c, out, jv):
+    """why the engine answered what it answered, by the exact arithmetic"""
+    if jv[:1] == [3]: return "known-finding class"
+    if jv[:1] == [9]: return "outside [-2^127,2^128) (literal only)"
+    if not out: return "other"
+    if out[0] == 5: return "comparison"
+    if out[0] == 0: return "exact integer" + (" (beyond i64)" if not -P63 <= out[1] < P63 else "")
+    if out[0] == 1:
+        o, a, b = c[0], c[2], c[4]
+        if not -P127 <= a < P127 or (o != 6 and not -P127 <= b < P127): return "error: operand beyond i128"
+        if o in (3, 4) and b == 0: return "error: zero divisor"
+        if o == 5 and b < 0: return "error: negative exponent"
+        return "error: exact result beyond i128"
+    return "other"
+
+
+def float_class(x):
+    if isinstance(x, int): return "integer " + magnitude_bucket(x)
+    if math.isnan(x): return "nan"
+    if math.isinf(x): return "inf"
+    if x == 0: return "zero"
+    a = abs(x)
+    if a < 2.2250738585072014e-308: return "subnormal"
+    if a != math.floor(a): return "fractional" + (" <1" if a < 1 else "")
+    return "integral" + (" >=2^53" if a >= 2.0**53 else "")
 
 
 def main():
     chk = Check("C08", "proof")
     chk.cov["trusted_base"] = TRUSTED_COMMON + [
-        "Print Assumptions: all eleven theorems closed under the global context (no axioms)",
-        "float leg: the int/float comparison is modelled and proved exact in Coq (int_float_cmp_exact; `as f64` modelled as round-to-nearest-even on Z, float decoding and the hardware float compare modelled) and additionally judged by Python's exact int/float comparison; float/float and int/float // and % are NOT modelled in Coq - judged by an exact-rational oracle in tools/props/C08.py (Python fractions; float(int) and float(Fraction) are correctly rounded)"]
+        "Print Assumptions: the twelve integer / comparison theorems are closed under the global context (no axioms); the three float theorems "
+        "(euclid_float_remainder, euclid_float_quotient, euclid_float_convention) depend on exactly the four classical axioms of Coq's Reals / Flocq: "
+        "ClassicalDedekindReals.sig_not_dec, ClassicalDedekindReals.sig_forall_dec, FunctionalExtensionality.functional_extensionality_dep, Classical_Prop.classic "
+        "(named in tools/axiom_allowlist.txt; the check fails if any other theorem uses an axiom)",
+        "Flocq 4.1.0 (IEEE754.BinarySingleNaN: Bplus, Bminus, Bdiv, Bnearbyint, binary_normalize and their correctness theorems) as the definition of IEEE-754 binary64 arithmetic; "
+        "the hardware's f64 + - / round and fmod are assumed to be these correctly rounded operations (checked bit-for-bit by the correspondence run only)",
+        "float leg: int/float comparison proved exact in pure Z (int_float_cmp_exact); for all finite a, b != 0 float % proved to be the correctly rounded exact Euclidean remainder and float // the exact Euclidean quotient Q "
+        "below 2^51 - 1 and within 2^-50 |Q| beyond (Flocq model); as a second opinion an exact-rational oracle in tools/props/C08.py (Python fractions; float(int) and float(Fraction) are correctly rounded) judges the implementation"]
     chk.assumptions = [
         "integers held by values lie in [-2^127, 2^128) (value representation); operands are literals or i64/u64/i128/u128 values",
-        "modelled: ops.rs::{coerce,add,sub,mul,int_div,rem,pow,neg,int_as_value} on integers, i128::try_from(Value), Value eq/cmp on integers, lexer eat_number integer branch, literal negation in codegen; "
-        "i128::checked_{add,sub,mul,div_euclid,pow} and wrapping_rem_euclid are modelled from core's documented definitions",
-        "float results are judged after the final rounding: a % b must equal the correctly rounded exact Euclidean remainder (so r == |b| can appear when r + |b| rounds up), a // b must be integral and satisfy |(a//b)*b + R - a| <= 2^-50 (|(a//b)*b| + R + |a|) in exact rationals with R the exact Euclidean remainder (this forces the exact quotient whenever it is below 2^48); the sign of a zero result is not judged",
+        "modelled: ops.rs::{coerce,add,sub,mul,int_div,rem,pow,neg,int_as_value,float_div_euclid}, i128::try_from(Value), Value eq/cmp on integers and integer/float, lexer eat_number integer branch, literal negation in codegen; "
+        "i128::checked_{add,sub,mul,div_euclid,pow}, wrapping_rem_euclid, f64::{rem_euclid,div_euclid,round,trunc}, `%` on f64 and `as f64` are modelled from core's documented definitions",
+        "float results are judged after the final rounding: a % b must equal the correctly rounded exact Euclidean remainder (so r == |b| can appear when r + |b| rounds up), a // b must be integral and satisfy |(a//b)*b + R - a| <= 2^-50 (|(a//b)*b| + R + |a|) in exact rationals with R the exact Euclidean remainder (this forces the exact quotient whenever it is below 2^48); the sign of a zero result is not judged by the oracle (it is compared bit-for-bit with the model)",
         "float + - * ** and unary minus are outside the property's claims (IEEE agreement of + - * neg is recorded in coverage.notes only)"]
     ok_models, blog = build_models("C08")
     proofs_ok = chk.run_proofs()
+    # only the float-leg theorems (real numbers, Flocq) may depend on the allow-listed classical axioms;
+    # Print Assumptions of Props/C08.v is re-read here because axioms with long types span several lines
+    FLOAT_THEOREMS = {"euclid_float_remainder", "euclid_float_quotient", "euclid_float_convention"}
+    REAL_AXIOMS = {"ClassicalDedekindReals.sig_not_dec", "ClassicalDedekindReals.sig_forall_dec",
+                   "FunctionalExtensionality.functional_extensionality_dep", "Classical_Prop.classic"}
+    blocks = re.split(r"^(?=Closed under the global context|Axioms:)", chk.proof.get("log", ""), flags=re.M)
+    blocks = [b for b in blocks if b.startswith("Closed under") or b.startswith("Axioms:")]
+    names = [t["name"] for t in chk.proof.get("theorems", [])]
+    axioms_used = {}
+    if len(blocks) == len(names):
+        for n, b in zip(names, blocks):
+            ax = set(re.findall(r"^([A-Za-z_][A-Za-z0-9_'.]*)\s*(?::|$)", b, flags=re.M)) - {"Axioms", "Closed"}
+            axioms_used[n] = sorted(ax)
+            if n not in FLOAT_THEOREMS and ax:
+                proofs_ok = False
+                chk.proof.setdefault("problems", []).append("theorem %s must be closed under the global context but uses %s" % (n, sorted(ax)))
+            if n in FLOAT_THEOREMS and not ax <= REAL_AXIOMS:
+                proofs_ok = False
+                chk.proof.setdefault("problems", []).append("theorem %s uses axioms beyond the four of Coq's Reals/Flocq: %s" % (n, sorted(ax - REAL_AXIOMS)))
+        chk.cov["axioms_by_theorem"] = axioms_used
+    elif chk.proof.get("ok"):
+        proofs_ok = False
+        chk.proof.setdefault("problems", []).append("cannot match Print Assumptions blocks to theorems")
+    if not proofs_ok:
+        chk.cov["discharged"] = 0
+        chk.cov["proof_problems"] = chk.proof.get("problems", [])
     okc, clog = cargo_build(["c08"], release=False)
     okr, clog2 = cargo_build(["c08"], release=True)
     if not (okc and okr):
@@ -451,19 +514,22 @@ def main():
                 va, vb = operand_value(c[1], c[2]), operand_value(c[3], c[4])
                 fwidth[(c[0], repr(va), repr(vb), is_float_form(c[1]), is_float_form(c[3]))][(c[1], c[3])] = (tuple(out), i)
     # int/float comparison: also through the Coq model (correspondence) and the extracted exact oracle
-    cmp_idx = [i for i, c in enumerate(fcases) if c[0] == 7]
+    # float // and %: through the Flocq binary64 model (bit-for-bit correspondence, zero signs included)
+    cmp_idx = [i for i, c in enumerate(fcases) if c[0] in (3, 4, 7)]
     cmp_model = prun(lambda cs: run_model("C08", "c08", cs), [fcases[i] for i in cmp_idx])
     fmism = []
     fmodelled = 0
+    feuclid_modelled = 0
     for rel in (False, True):
         jc = prun(lambda cs: run_model("C08", "c08-judge", cs), [fcases[i] + rf["impl"][rel][i] for i in cmp_idx])
         for i, mo, v in zip(cmp_idx, cmp_model, jc):
             out = rf["impl"][rel][i]
-            if mo != [7]:
-                fmodelled += 1
+            if mo not in ([7], [9]):
+                if fcases[i][0] == 7: fmodelled += 1
+                else: feuclid_modelled += 1
                 if mo != out:
                     fmism.append((i, rel, mo))
-            if v[:1] == [0]:
+            if fcases[i][0] == 7 and v[:1] == [0]:
                 fbad.setdefault(i, ("release" if rel else "debug", out, "int/float comparison is not exact (Coq oracle exact_cmp_rat)"))
     for key, d in fwidth.items():
         if len(set(o for o, _ in d.values())) > 1:
@@ -472,27 +538,47 @@ def main():
                                      "; ".join("%s/%s -> %s" % (FORMS[k[0]], FORMS[k[1]], list(o)) for k, (o, _) in sorted(d.items()))))
 
     # ---------------- coverage ----------------
-    hist = collections.Counter()
+    H = collections.defaultdict(collections.Counter)     # histogram name -> bucket -> count (per case, debug profile)
     nontriv = set()
     for i, c in enumerate(icases):
         out = r["impl"][False][i]
         jv = judged[False][i]
-        hist["op " + OPS[c[0]]] += 1
-        hist["form " + FORMS[c[1]]] += 1
-        hist["|a| " + magnitude_bucket(c[2])] += 1
-        hist["outcome " + ("known-finding class" if jv[:1] == [3] else "outside the range" if jv[:1] == [9] else
-                           {0: "integer", 1: "error", 5: "comparison"}.get(out[0] if out else -1, "other"))] += 1
+        unary = c[0] == 6
+        oc = int_outcome_class(c, out, jv)
+        H["integer leg: operator"][OPS[c[0]]] += 1
+        H["integer leg: operand forms"][FORMS[c[1]] + ("" if unary else " , " + FORMS[c[3]])] += 1
+        H["integer leg: magnitude of a"][magnitude_bucket(c[2])] += 1
+        if not unary:
+            H["integer leg: magnitude of b"][magnitude_bucket(c[4])] += 1
+        H["integer leg: outcome class"][oc] += 1
+        H["integer leg: outcome class by operator"][OPS[c[0]] + " -> " + oc] += 1
+        H["integer leg: part"]["exhaustive boundary box" if i < box_n else "seeded random / outside-range"] += 1
         if jv == [1]:
             big = max(abs(c[2]), abs(c[4]) if c[0] != 6 else 0) >= 2**31 or (out[0] == 0 and abs(out[1]) >= P63)
             if big or (c[0] in (3, 4) and (c[2] < 0 or c[4] < 0) and out[0] == 0):
                 nontriv.add((c[0], c[2], c[4] if c[0] != 6 else 0))
     for i, c in enumerate(fcases):
-        hist["float-leg op " + OPS[c[0]]] += 1
-        v = judge_float(c, rf["impl"][False][i])
+        out = rf["impl"][False][i]
+        v = judge_float(c, out)
+        unary = c[0] == 6
+        x = operand_value(c[1], c[2]); y = None if unary else operand_value(c[3], c[4])
+        H["float leg: operator"][OPS[c[0]]] += 1
+        H["float leg: operand forms"][FORMS[c[1]] + ("" if unary else " , " + FORMS[c[3]])] += 1
+        H["float leg: operand a"][float_class(x)] += 1
+        if not unary:
+            H["float leg: operand b"][float_class(y)] += 1
+        H["float leg: answer"][{4: "float", 5: "comparison", 1: "error", 0: "integer", 2: "panic"}.get(out[0] if out else -1, "other")] += 1
+        H["float leg: oracle"]["not judged (outside the property's claims: + - * neg, non-finite, zero divisor, float/float comparison)" if v is None
+                               else "judged: accepted" if v[0] else "judged: rejected"] += 1
+        if c[0] in (3, 4) and v is not None:
+            a_, b_ = as_float_operand(c[1], c[2]), as_float_operand(c[3], c[4])
+            Q_, _ = float_euclid_expect(a_, b_)
+            H["float leg: exact Euclidean quotient"]["|Q| < 2^51-1 (theorem: exact)" if abs(Q_) < 2**51 - 1 else
+                                                     "|Q| >= 2^51-1 (theorem: within 2^-50 |Q| when finite)"] += 1
         if v is not None and v[0]:
-            x, y = operand_value(c[1], c[2]), operand_value(c[3], c[4])
             if c[0] == 7 or x < 0 or y < 0 or x != int(x) or y != int(y):
                 nontriv.add((c[0], repr(x), repr(y)))
+    hist = {k: dict(sorted(v.items(), key=lambda kv: -kv[1])) for k, v in H.items()}
     chk.cov["evaluations"] = 2 * (len(icases) + len(fcases))
     chk.cov["distinct_nontrivial"] = len(nontriv)
     chk.cov["rule"] = ("integer leg: boundary pool (%d values: 0, +-1, +-2, 2^31+-1, 2^32+-1, 2^53+-1, +-2^63, +-(2^63+-1), 2^64+-1, +-2^127, +-(2^127+-1), 2^128-1, small exponents) squared x "
@@ -510,9 +596,10 @@ def main():
     fpick = sorted(set(i for i in (len(fcases) // 4, len(fcases) - 1) if 0 <= i < len(fcases)))
     chk.cov["samples"] = [dict(describe(icases[i]), answer=r["impl"][False][i]) for i in pick] + \
                          [dict(describe(fcases[i]), answer=rf["impl"][False][i]) for i in fpick]
-    chk.cov["distribution"] = dict(hist)
+    chk.cov["distribution"] = hist
     chk.cov["impl_vs_model_disagreements"] = len(mism) + len(fmism)
     chk.cov["int_float_comparisons_through_model"] = fmodelled
+    chk.cov["float_floordiv_rem_through_model"] = feuclid_modelled
     chk.notes["float_ieee_mismatches_informational"] = ieee_mismatch
     # kernel cross-check of the extraction on a sample
     kern_ok, kern_n = True, 0
@@ -522,6 +609,15 @@ def main():
         kern = kernel_eval("run", [icases[i] for i in idx], "k_C08_c08", imports="Common.Base C08.Runner")
         kern_n = len(idx)
         kern_ok = kern is not None and all(j < len(kern) and kern[j] == model[idx[j]] for j in range(len(idx)))
+    # ... and of the Flocq float model (float // and %)
+    fk_idx = [i for i, mo in zip(cmp_idx, cmp_model) if fcases[i][0] in (3, 4) and mo not in ([7], [9])]
+    if fk_idx:
+        step = max(1, len(fk_idx) // 24)
+        fk_idx = fk_idx[::step][:24]
+        pos = {i: k for k, i in enumerate(cmp_idx)}
+        kernf = kernel_eval("run", [fcases[i] for i in fk_idx], "k_C08_c08_float", imports="Common.Base C08.Runner")
+        kern_n += len(fk_idx)
+        kern_ok = kern_ok and kernf is not None and all(j < len(kernf) and kernf[j] == cmp_model[pos[i]] for j, i in enumerate(fk_idx))
     chk.cov["kernel_crosscheck"] = {"cases": kern_n, "agree": kern_ok}
 
     # ---------------- verdicts ----------------
@@ -581,7 +677,7 @@ def main():
                               "case": c, "describe": describe(c), "implementation": r["impl"][rel][i], "model": model[i], "disagreements": len(mism)}, True)
         if fmism and not mism:
             i, rel, mo = fmism[0]
-            chk.violation("model and implementation disagree (int/float comparison)", {"theorem_or_correspondence": "correspondence C08.Runner.run (model_compare_float) vs harness c08",
+            chk.violation("model and implementation disagree (float leg)", {"theorem_or_correspondence": "correspondence C08.Runner.run (model_compare_float / FloatModel.Brem_euclid, Bdiv_euclid) vs harness c08",
                           "case": fcases[i], "describe": describe(fcases[i]), "implementation": rf["impl"][rel][i], "model": mo, "disagreements": len(fmism)}, True)
         if not kern_ok:
             chk.violation("kernel evaluation disagrees with extracted model", {"theorem_or_correspondence": "vm_compute cross-check of extraction"}, True)
